@@ -30,6 +30,11 @@ def graph_items(prop, tier, seed, oracles, *, max_mult_q=1, opts=None, tags=(), 
     def add(n, edges, name, layouts):
         base = F.build_ops(n, edges, extras=True, wextras=wextras)
         seqs = F.drop_sequences(n, n, with_extra=with_extra_drops and n <= 2)
+        if with_extra_drops and n <= 2:
+            # orders that interleave drops of extra handles: all plain orders plus a seeded sample of the rest
+            seqs = F.drop_sequences(n, n + 1, with_extra=True)
+            rs = random.Random('%s|%s|%d' % (prop, name, seed))
+            seqs = rs.sample(seqs, min(len(seqs), 4 if tier == 'quick' else 24))
         for seq in seqs:
             ops = list(base)
             if weak_obs:
@@ -241,6 +246,20 @@ PROPS = {}
 
 def items_C06(tier, seed, P):
     its = graph_items('C06', tier, seed, {'C06'}, wextras=True, with_extra_drops=True, noop=True) + mult_items('C06', tier, seed, {'C06'}, wextras=True) + history_items('C06', tier, seed, {'C06'})
+    # Weak handles stored inside values (counts seen through Rc::weak_count / Weak::*_count after every step)
+    its += weak_graph_items('C06', tier, seed, {'C06'}, opts={'panics_ok': True}, dtor_upgrades=False, one_weak=True)
+    # counts of the peers after value-cloning / value-moving APIs (make_mut clones the handles a value holds; try_unwrap moves them)
+    R = lambda i, j: (i, j, True, False)
+    for (n, e, nm) in [(2, [R(0, 1)], 'owner-target'), (2, [R(0, 1), R(1, 0)], 'ring2'), (3, F.named_shapes(3)['ring2+leaf'], 'ring2+leaf'), (2, [(0, 1, False, False)], 'chain-unrecorded')]:
+        for api in ('make_mut', 'try_unwrap'):
+            for tgt in range(n):
+                ops = F.build_ops(n, e, extras=True, wextras=True)
+                ops += [{'op': api, 'h': H(tgt), 'as': 'res'} if api == 'try_unwrap' else {'op': api, 'h': H(tgt)}]
+                for i in range(n):
+                    if not (api == 'try_unwrap' and i == tgt):
+                        ops += [{'op': 'strong_count', 'h': H(i)}, {'op': 'weak_count', 'h': H(i)}]
+                its.append(dict(prop='C06', name='%s %s on %d then counts' % (nm, api, tgt), script={'ops': ops}, sym=True, oracles={'C06'}, opts={'panics_ok': True},
+                                layouts=[None]))
     for it in its:
         # observe the public counters too
         ops = []
